@@ -327,3 +327,38 @@ package types
 //@   ensures result == nil ==> acct_at(h, content(to), exec) != nil && acct_at(h, content(to), exec).Balance != nil && isbal(acct_at(h, content(to), exec).Balance)
 //@   ensures forall x :: old(allocated(x)) && result == nil && x == acct_at(h, content(to), exec).Balance && old(u(x)) + old(u(amt)) < 2^256 ==> u(x) == old(u(x)) + old(u(amt))   [C12,C13]
 //@   ensures forall x :: old(allocated(x)) && result != nil ==> u(x) == old(u(x))                              [C05]
+
+// ---- merging a winning governance option into the active parameters (C15, C09): a field the option leaves
+// unset (zero / nil) keeps the previous value, a field it sets takes the new value; the previous parameters are not changed
+//@ func MergeGovParams(oldParams, newParams)
+//@   nopanic
+//@   requires oldParams != nil && newParams != nil && oldParams != newParams
+//@   modifies newParams.version, newParams.maxValidatorCnt, newParams.lazyRewardBlocks, newParams.lazyApplyingBlocks, newParams.minTrxGas, newParams.maxTrxGas, newParams.maxBlockGas, newParams.minVotingPeriodBlocks, newParams.maxVotingPeriodBlocks, newParams.minSelfStakeRatio, newParams.maxUpdatableStakeRatio, newParams.maxIndividualStakeRatio, newParams.slashRatio, newParams.signedBlocksWindow, newParams.minSignedBlocks, newParams.minValidatorStake, newParams.minDelegatorStake, newParams.rewardPerPower, newParams.gasPrice
+//@   ensures newParams.version == (old(newParams.version) == 0 ? oldParams.version : old(newParams.version))   [C15]
+//@   ensures newParams.maxValidatorCnt == (old(newParams.maxValidatorCnt) == 0 ? oldParams.maxValidatorCnt : old(newParams.maxValidatorCnt))   [C15]
+//@   ensures newParams.lazyRewardBlocks == (old(newParams.lazyRewardBlocks) == 0 ? oldParams.lazyRewardBlocks : old(newParams.lazyRewardBlocks))   [C15]
+//@   ensures newParams.lazyApplyingBlocks == (old(newParams.lazyApplyingBlocks) == 0 ? oldParams.lazyApplyingBlocks : old(newParams.lazyApplyingBlocks))   [C15]
+//@   ensures newParams.minTrxGas == (old(newParams.minTrxGas) == 0 ? oldParams.minTrxGas : old(newParams.minTrxGas))   [C15]
+//@   ensures newParams.maxTrxGas == (old(newParams.maxTrxGas) == 0 ? oldParams.maxTrxGas : old(newParams.maxTrxGas))   [C15]
+//@   ensures newParams.maxBlockGas == (old(newParams.maxBlockGas) == 0 ? oldParams.maxBlockGas : old(newParams.maxBlockGas))   [C15]
+//@   ensures newParams.minVotingPeriodBlocks == (old(newParams.minVotingPeriodBlocks) == 0 ? oldParams.minVotingPeriodBlocks : old(newParams.minVotingPeriodBlocks))   [C15]
+//@   ensures newParams.maxVotingPeriodBlocks == (old(newParams.maxVotingPeriodBlocks) == 0 ? oldParams.maxVotingPeriodBlocks : old(newParams.maxVotingPeriodBlocks))   [C15]
+//@   ensures newParams.minSelfStakeRatio == (old(newParams.minSelfStakeRatio) == 0 ? oldParams.minSelfStakeRatio : old(newParams.minSelfStakeRatio))   [C15]
+//@   ensures newParams.maxUpdatableStakeRatio == (old(newParams.maxUpdatableStakeRatio) == 0 ? oldParams.maxUpdatableStakeRatio : old(newParams.maxUpdatableStakeRatio))   [C15]
+//@   ensures newParams.maxIndividualStakeRatio == (old(newParams.maxIndividualStakeRatio) == 0 ? oldParams.maxIndividualStakeRatio : old(newParams.maxIndividualStakeRatio))   [C15]
+//@   ensures newParams.slashRatio == (old(newParams.slashRatio) == 0 ? oldParams.slashRatio : old(newParams.slashRatio))   [C15]
+//@   ensures newParams.signedBlocksWindow == (old(newParams.signedBlocksWindow) == 0 ? oldParams.signedBlocksWindow : old(newParams.signedBlocksWindow))   [C15]
+//@   ensures newParams.minSignedBlocks == (old(newParams.minSignedBlocks) == 0 ? oldParams.minSignedBlocks : old(newParams.minSignedBlocks))   [C15]
+//@   ensures newParams.minValidatorStake == ((old(newParams.minValidatorStake) == nil || old(u(newParams.minValidatorStake)) == 0) ? oldParams.minValidatorStake : old(newParams.minValidatorStake))   [C15]
+//@   ensures newParams.minDelegatorStake == ((old(newParams.minDelegatorStake) == nil || old(u(newParams.minDelegatorStake)) == 0) ? oldParams.minDelegatorStake : old(newParams.minDelegatorStake))   [C15]
+//@   ensures newParams.rewardPerPower == ((old(newParams.rewardPerPower) == nil || old(u(newParams.rewardPerPower)) == 0) ? oldParams.rewardPerPower : old(newParams.rewardPerPower))   [C15]
+//@   ensures newParams.gasPrice == ((old(newParams.gasPrice) == nil || old(u(newParams.gasPrice)) == 0) ? oldParams.gasPrice : old(newParams.gasPrice))   [C15]
+
+// ---- the staking controller as seen by governance (C15): the current validator set and its total power
+//@ func (h IStakeHandler) Validators()
+//@   pure
+//@   ensures 0 <= result1 && result1 < 2^62
+
+//@ func (h IStakeHandler) IsValidator(addr)
+//@   pure
+//@   ensures result == isvalidator(h, content(addr))
